@@ -388,6 +388,24 @@ def w_F16a():
     return t.scale is None, "export_to_geff on tracks with scale=None left tracks.scale == %r" % (t.scale,)
 
 
+# ----------------------------------------------------------------------------- C15
+def w_F15a():
+    import csv
+    from funtracks.import_export import export_to_csv
+
+    t = _sol({1: 0, 2: 1}, [(1, 2)])
+    d = Path(tempfile.mkdtemp(prefix="funverif."))
+    try:
+        try:
+            export_to_csv(t, d / "out.csv", node_ids=set())
+        except Exception as e:  # noqa: BLE001
+            return False, "export_to_csv with an empty node selection raises %s: %s" % (type(e).__name__, str(e)[:60])
+        rows = list(csv.reader(open(d / "out.csv")))
+        return len(rows) == 1 and "id" in rows[0], "rows written for the empty selection: %s" % rows
+    finally:
+        shutil.rmtree(d, ignore_errors=True)
+
+
 # ----------------------------------------------------------------------------- C17
 def partition_ok(cols, mapping):
     used = []
@@ -484,6 +502,7 @@ WITNESSES = {
     "F-13a-stray-only": (["C13"], w_F13a_stray_only),
     "F-14a-roundtrip": (["C14"], w_F14a_roundtrip),
     "F-14a-undo": (["C01"], w_F14a_undo),
+    "F-15a": (["C15"], w_F15a),
     "F-16a": (["C16"], w_F16a),
     "F-17a-fuzzy": (["C17"], w_F17a_fuzzy),
     "F-17a-custom-pos": (["C17"], w_F17a_custom_pos),
